@@ -592,7 +592,9 @@ func runC14Codec(c *kit.Ctx, k *keyer) {
 				c.Bad("R14.4", kkey, posOf(s.Instr), "out-of-band reader decodes %q as %s but Resumer.Write stores %s", key, *codec, W[key][0].Codec)
 			}
 		}
-		c.Floor("R14.4", "out-of-band Get sites on torrent resume buckets", ng, 1)
+		// no floor here: an edit that removes the only out-of-band reader (AddTracker's
+		// read-back) must be judged by R14.8, not turn the check into "broken"
+		c.Floor("R14.4", "out-of-band Get sites on torrent resume buckets", ng, 0)
 	}
 
 	// ---- table L: Spec initialisations outside the codec package
@@ -600,6 +602,9 @@ func runC14Codec(c *kit.Ctx, k *keyer) {
 
 	// ---- R14.7 the periodic counter writer covers the whole registry
 	runC14Stats(c, k, t, put, W)
+
+	// ---- R14.8 read-modify-write of a resume key happens inside one transaction
+	runC14LostUpdate(c, k, t, get, oobWriters)
 }
 
 func c14KeyList(m map[string]string) string {
